@@ -39,7 +39,7 @@ impl Property for C19 {
         if tier == "thorough" { 1_500_000 } else { 40_000 }
     }
     fn rule(&self) -> String {
-        "case = (program from W1 corpus | W5 supplementary scripts (function values, many-key objects, object rest, duplicate names) | W6 generated scripts that fail while many similarly spelled variables/properties/functions/parameters are in reach | W4 recombined corpus | W2 call-tree generator | W3 object histories) x (world: random subset of 28 dimensions (hash keys, heap/env/stack layout, malloc tunables, cwd, script location, file name, path spelling, argv[0], environment kind, locale, RUST_BACKTRACE, stdin/stdout/stderr kinds, 2>&1, decoy files, clock, pid, non-Unicode environment entries, inherited signal dispositions/mask, umask, extra open fds, script permissions/mtime, uid, generous resource limits, allocator behaviour: tcache off / memory perturbation) changed against the reference world w0) x (plan of invisible I/O events: write/read chunking, EINTR bursts, short writes, ERANGE on getcwd, wrong size hint); oracle: transcript (stdout, stderr, exit status) equals the reference world's up to the echoed script path; a case is non-trivial when the world differs from w0 or an invisible event fired; distinct = distinct (program, world, plan) triples".to_string()
+        "case = (program from W1 corpus | W5 supplementary scripts (function values, many-key objects, object rest, duplicate names) | W6 generated scripts that fail while many similarly spelled variables/properties/functions/parameters are in reach | W4 recombined corpus | W2 call-tree generator | W3 object histories) x (world: random subset of 28 dimensions (hash keys, heap/env/stack layout, malloc tunables, cwd, script location, file name, path spelling, argv[0], environment kind, locale, RUST_BACKTRACE, stdin/stdout/stderr kinds, 2>&1, decoy files, clock, pid, non-Unicode environment entries, inherited signal dispositions/mask, umask, extra open fds, script permissions/mtime, uid, generous resource limits, allocator behaviour: tcache off / memory perturbation) changed against the reference world w0) x (plan of invisible I/O events: write/read chunking, EINTR bursts, short writes, ERANGE on getcwd, wrong size hint; in 5% of the cases instead one read-path fault - getcwd, open or read error - applied identically in the reference world and in the varied world); oracle: transcript (stdout, stderr, exit status) equals the reference world's up to the echoed script path; a case is non-trivial when the world differs from w0 or an invisible event fired; distinct = distinct (program, world, plan) triples".to_string()
     }
     fn assumptions(&self) -> Vec<String> {
         vec![
@@ -80,7 +80,18 @@ impl Property for C19 {
     fn gen_case(&self, ctx: &Ctx, worker: usize, rng: &mut Rng, _index: u64) -> Case {
         let p = pick_program(ctx, rng);
         let mut world = World::random(rng, ALLOWED);
-        let reference = ctx.reference(worker, &p.program);
+        let mut reference = ctx.reference(worker, &p.program);
+        // "fault pair": the same read-path fault in the reference world and in the varied
+        // world -- what the program does about the fault must not depend on the world either
+        let mut fault_plan = Plan::new();
+        if rng.chance(1, 20) {
+            fault_plan.items.push(match rng.below(4) {
+                0 | 1 => crate::faults::cwd_fault(rng),
+                2 => crate::faults::open_fault(rng),
+                _ => crate::faults::read_fault(rng, crate::faults::count_reads(&reference).max(1)),
+            });
+            reference = std::sync::Arc::new(ctx.run(worker, &p.program, &World::reference(), &fault_plan));
+        }
         // directed worlds: whatever environment variable or relative file the
         // program was seen asking for gets a value / gets created
         if rng.chance(1, 2) {
@@ -96,7 +107,7 @@ impl Property for C19 {
                 }
             }
             // second stage: what does the program look for once those variables are set?
-            let probe = if asked_env { Some(ctx.run(worker, &p.program, &world, &Plan::new())) } else { None };
+            let probe = if asked_env { Some(ctx.run(worker, &p.program, &world, &fault_plan)) } else { None };
             let home_prefix = format!("{}/", ctx.cfg.scratch.join(format!("w{worker:03}")).join("run").join("home").display());
             let mut asked: Vec<(String, String)> = vec![];
             for run in [Some(reference.as_ref()), probe.as_ref()].into_iter().flatten() {
@@ -117,18 +128,30 @@ impl Property for C19 {
                 }
             }
         }
-        let plan = if rng.chance(1, 2) { oracle::invisible_plan(rng, &reference) } else { Plan::new() };
+        let mut plan = if rng.chance(1, 2) && fault_plan.items.is_empty() { oracle::invisible_plan(rng, &reference) } else { Plan::new() };
+        plan.items.extend(fault_plan.items);
         Case { label: p.label, program: p.program, aux: p.aux, world, plan }
     }
 
     fn check(&self, ctx: &Ctx, worker: usize, case: &Case) -> Outcome {
         let mut out = Outcome::default();
-        let reference = ctx.reference(worker, &case.program);
+        let mut reference = ctx.reference(worker, &case.program);
         if oracle::is_crash(&reference.status) {
             out.skipped = Some("reference-run-crashes".into());
             return out;
         }
         let plan = case.plan.clone();
+        if !plan.all_invisible() {
+            // fault pair: the reference is the same fault in the reference world
+            let faults = Plan { items: plan.items.iter().filter(|i| !i.is_invisible()).cloned().collect() };
+            reference = std::sync::Arc::new(ctx.run(worker, &case.program, &World::reference(), &faults));
+            out.probes.push("fault-pair".into());
+            out.cells.push("fault-pair".into());
+            if oracle::is_crash(&reference.status) {
+                out.skipped = Some("reference-run-crashes".into());
+                return out;
+            }
+        }
         let r = ctx.run(worker, &case.program, &case.world, &plan);
         out.io_events = r.events.len() as u64;
         out.history_shape = r.history_shape();
@@ -186,7 +209,7 @@ impl Property for C19 {
         }
         // W3 programs carry a model: print is a canonical function of the value,
         // whatever the aliasing, construction order or world
-        if case.label.starts_with("W3") && cmp_stdout {
+        if case.label.starts_with("W3") && cmp_stdout && plan.all_invisible() {
             let w3 = crate::w3::build(&case.aux);
             if w3.text == case.program {
                 out.probes.push("w3-model-compared".into());
